@@ -392,7 +392,7 @@ are (uncentred) or centred on their own mean with the pseudo-sample `√(n_a n_b
 theorem src_ipca_plumbing (lib : Lib) (Bm Ua : M) (la : V) (na : Nat) (ma : V) (f eps : Rat) (centred : Bool)
     (Bd : Data) (hB : DataRepr Bm Bd) :
     ∃ Baug m, Src.ipca lib Bm Ua la na (some ma) f eps (some centred)
-        = Src.ipcaTail lib Baug Ua (sqrt lib.sqrt (((na : Rat) - 1) * la)) f eps ((na : Rat) * f + (Bd.length : Rat)) m ∧
+        = Src.ipcaTail (lib.withPrec (Src.operandPrec lib Bm Ua la)) Baug Ua (sqrt lib.sqrt (((na : Rat) - 1) * la)) f eps ((na : Rat) * f + (Bd.length : Rat)) m ∧
       DataRepr Baug (augDataGen centred ma.f Bd
         (lib.sqrt ((na : Rat) * f * (Bd.length : Rat) / ((na : Rat) * f + (Bd.length : Rat))))) ∧
       m.f = (fun i => if centred then (na : Rat) * f / ((na : Rat) * f + (Bd.length : Rat)) * ma.f i
@@ -436,7 +436,7 @@ def srcMean (Bm : M) (na : Rat) (ma : V) (f : Rat) (centred : Bool) : V :=
 
 theorem src_ipca_eq_tail (lib : Lib) (Bm Ua : M) (la : V) (na : Rat) (ma : V) (f eps : Rat) (centred : Bool) :
     Src.ipca lib Bm Ua la na (some ma) f eps (some centred)
-      = Src.ipcaTail lib (srcAug lib Bm na ma f centred) Ua (sqrt lib.sqrt ((na - 1) * la)) f eps (na * f + (Bm.r : Rat))
+      = Src.ipcaTail (lib.withPrec (Src.operandPrec lib Bm Ua la)) (srcAug lib Bm na ma f centred) Ua (sqrt lib.sqrt ((na - 1) * la)) f eps (na * f + (Bm.r : Rat))
           (srcMean Bm na ma f centred) := by
   cases centred <;> simp [Src.ipca, srcAug, srcMean]
 
@@ -503,7 +503,7 @@ theorem src_ipca_step_represents (lib : Lib) (centred : Bool) (X Bd : Data) (hX 
         ≤ (lib.svd (tailR lib A Ua sa 1)).2.1.f i * (lib.svd (tailR lib A Ua sa 1)).2.1.f i)
     (hgap : ∀ i, i < (lib.svd (tailR lib A Ua sa 1)).2.1.n →
       (lib.svd (tailR lib A Ua sa 1)).2.1.f i * (lib.svd (tailR lib A Ua sa 1)).2.1.f i = 0 ∨
-      tailThr lib A Ua sa 1 eps ((X.length : ℚ) * 1 + (Bm.r : ℚ))
+      tailThr (lib.withPrec (Src.operandPrec lib Bm Ua la)) A Ua sa 1 eps ((X.length : ℚ) * 1 + (Bm.r : ℚ))
         < (lib.svd (tailR lib A Ua sa 1)).2.1.f i * (lib.svd (tailR lib A Ua sa 1)).2.1.f i
             / ((X.length : ℚ) * 1 + (Bm.r : ℚ) - 1)) :
     let r := Src.ipca lib Bm Ua la (X.length : ℚ) (some ⟨d, if centred then mean X else zeroVec⟩) 1 eps (some centred)
@@ -513,7 +513,7 @@ theorem src_ipca_step_represents (lib : Lib) (centred : Bool) (X Bd : Data) (hX 
       r.2.2.f = (if centred then mean (X ++ Bd) else zeroVec) ∧
       (toMat Ua k d * (toMat Ua k d)ᵀ = 1 → toMat r.1 r.2.1.n d * (toMat r.1 r.2.1.n d)ᵀ = 1) := by
   intro r
-  have hr : r = Src.ipcaTail lib A Ua sa 1 eps ((X.length : ℚ) * 1 + (Bm.r : ℚ))
+  have hr : r = Src.ipcaTail (lib.withPrec (Src.operandPrec lib Bm Ua la)) A Ua sa 1 eps ((X.length : ℚ) * 1 + (Bm.r : ℚ))
       (srcMean Bm (X.length : ℚ) ⟨d, if centred then mean X else zeroVec⟩ 1 centred) := by
     rw [hA, hsa]; exact src_ipca_eq_tail lib Bm Ua la _ _ 1 eps centred
   have hAc : A.c = d := by rw [hA]; exact srcAug_c lib Bm _ _ 1 centred d hBc
@@ -524,7 +524,8 @@ theorem src_ipca_step_represents (lib : Lib) (centred : Bool) (X Bd : Data) (hX 
     have : (2 : ℚ) ≤ X.length := by exact_mod_cast hn
     have : (0 : ℚ) ≤ Bm.r := by positivity
     linarith
-  obtain ⟨hm, hrep, hpos, horth⟩ := src_ipcaTail_represents lib A Ua sa 1 eps ((X.length : ℚ) * 1 + (Bm.r : ℚ))
+  obtain ⟨hm, hrep, hpos, horth⟩ := src_ipcaTail_represents (lib.withPrec (Src.operandPrec lib Bm Ua la)) A Ua sa 1 eps
+    ((X.length : ℚ) * 1 + (Bm.r : ℚ))
     (srcMean Bm (X.length : ℚ) ⟨d, if centred then mean X else zeroVec⟩ 1 centred) k q d hUr hUc hAc hsan hVc hst hqr hsvd hV
     hnpos heps hdesc hgap
   rw [← hr] at hm hrep hpos horth
@@ -559,7 +560,12 @@ def exLib : Lib where
   qrQ := fun _ => ⟨2, 1, fun i _ => if i = 1 then 1 else 0⟩
   svd := fun _ => (⟨2, 2, fun _ _ => 0⟩, ⟨2, fun i => if i = 0 then 3 else 2⟩,
     ⟨2, 2, fun i j => if i + j = 1 then 1 else 0⟩)
-  precision := 1 / 4503599627370496
+  precision := 0
+  dtypeM := fun _ => 0
+  dtypeV := fun _ => 0
+  float64 := 0
+  inexact := fun _ => true
+  eps := fun _ => 1 / 4503599627370496
 
 def exXs : Data := [ex1 [2, 0], ex1 [0, 0]]
 def exBs : Data := [ex1 [0, 3]]
@@ -581,7 +587,7 @@ example :
         exact h j hj i hij)
     (by intro i hi
         have h : ∀ i, i < 2 → (if i = 0 then (3 : ℚ) else 2) * (if i = 0 then 3 else 2) = 0 ∨
-            tailThr exLib (ofData 2 exBs) exUaS (sqrt exLib.sqrt (((2 : ℚ) - 1) * exLaS)) 1 defaultEps ((2 : ℚ) * 1 + 1)
+            tailThr (exLib.withPrec (Src.operandPrec exLib (ofData 2 exBs) exUaS exLaS)) (ofData 2 exBs) exUaS (sqrt exLib.sqrt (((2 : ℚ) - 1) * exLaS)) 1 defaultEps ((2 : ℚ) * 1 + 1)
               < (if i = 0 then (3 : ℚ) else 2) * (if i = 0 then 3 else 2) / ((2 : ℚ) * 1 + 1 - 1) := by
           decide +kernel
         exact h i hi)).1
@@ -659,7 +665,7 @@ structure IpcaContracts (lib : Lib) (eps : Rat) (d : Nat) (centred : Bool) (X Bd
       let sa := sqrt lib.sqrt (((X.length : ℚ) - 1) * st.eigs)
       ∀ i, i < (lib.svd (tailR lib A st.components sa 1)).2.1.n →
         (lib.svd (tailR lib A st.components sa 1)).2.1.f i * (lib.svd (tailR lib A st.components sa 1)).2.1.f i = 0 ∨
-        tailThr lib A st.components sa 1 eps ((X.length : ℚ) * 1 + (Bm.r : ℚ))
+        tailThr (lib.withPrec (Src.operandPrec lib Bm st.components st.eigs)) A st.components sa 1 eps ((X.length : ℚ) * 1 + (Bm.r : ℚ))
           < (lib.svd (tailR lib A st.components sa 1)).2.1.f i * (lib.svd (tailR lib A st.components sa 1)).2.1.f i
               / ((X.length : ℚ) * 1 + (Bm.r : ℚ) - 1)
 
@@ -756,7 +762,7 @@ example : ∃ st, SrcPcaReach exLib defaultEps 2 false (exXs ++ exBs) st :=
       gap := (by
         intro A sa i hi
         have h : ∀ i, i < 2 → (if i = 0 then (3 : ℚ) else 2) * (if i = 0 then 3 else 2) = 0 ∨
-            tailThr exLib (ofData 2 exBs) exUaS (sqrt exLib.sqrt (((2 : ℚ) - 1) * exLaS)) 1 defaultEps ((2 : ℚ) * 1 + 1)
+            tailThr (exLib.withPrec (Src.operandPrec exLib (ofData 2 exBs) exUaS exLaS)) (ofData 2 exBs) exUaS (sqrt exLib.sqrt (((2 : ℚ) - 1) * exLaS)) 1 defaultEps ((2 : ℚ) * 1 + 1)
               < (if i = 0 then (3 : ℚ) else 2) * (if i = 0 then 3 else 2) / ((2 : ℚ) * 1 + 1 - 1) := by
           decide +kernel
         exact h i hi) }⟩
